@@ -93,7 +93,8 @@ def check_case(case):
     M = (N + 1) // 2
     # accuracy is demanded at the precision the input itself can carry: half/single inputs -> single precision
     eps = float(np.finfo(np.float32).eps) if dt in (np.dtype("float16"), np.dtype("float32")) else float(np.finfo(np.float64).eps)
-    tol = 32 * eps * max(1.0, float(np.max(np.abs(V))) if V.size else 1.0)
+    # FFT round-off grows with the coherent sum of the input (DC bin of a constant vector is N): budget 8 eps N max|x|
+    tol = 8 * eps * max(N, 4) * max(1.0, float(np.max(np.abs(V))) if V.size else 1.0)
     for rank, axis in LAYOUTS:
         ax = axis % rank
         # batch of vectors laid out so that `ax` is the converted axis
@@ -135,7 +136,7 @@ def check_case(case):
                 continue
             if out.size:
                 err = float(np.max(np.abs(out.astype(dft.CLD) - e)))
-                if not res.ratio("value err / (32 eps max|x|)", err, tol):
+                if not res.ratio("value err / (8 eps N max|x|)", err, tol):
                     res.violation("real_to_complex|values", f"max |out - definition| = {err:.3g} (budget {tol:.3g}) [{sub}]",
                                   case, sub)
                 # (-1)^m Re out[m] == x[2m]
@@ -196,7 +197,7 @@ def main(argv=None):
     return report.run_check(
         PID, gen_cases=gen_cases, check_case=check_case, describe=describe,
         required_hits=["N = 0", "N = 1", "negative axis", "middle axis of rank 3", "complex refused", "tone mapped"],
-        assumptions=["budget 32 eps max|x| with eps = single precision for float16/float32 input (scipy.fft computes half-precision input in single precision) and double otherwise"],
+        assumptions=["budget 8 eps max(N,4) max|x| with eps = single precision for float16/float32 input (scipy.fft computes half-precision input in single precision) and double otherwise"],
         argv=argv)
 
 
